@@ -26,14 +26,13 @@ def register(kind, run_job, replay):
 
 
 def classify_exception(e):
-    tb = traceback.extract_tb(e.__traceback__)
-    where = ''
-    for fr in reversed(tb):
-        if '/simprocesd/' in fr.filename:
-            where = f'{os.path.basename(fr.filename)}:{fr.name}'
-            break
-    if not where and tb:
-        where = f'{os.path.basename(tb[-1].filename)}:{tb[-1].name}'
+    '''("exception", detail) for an exception raised inside the library; an exception raised in harness code is
+    re-raised as HarnessError (never a verdict).'''
+    from . import library_origin
+    where = library_origin(e)
+    if where is None:
+        raise HarnessError(f'{type(e).__name__}: {str(e)[:300]} raised in harness code: '
+                           + ''.join(traceback.format_tb(e.__traceback__)[-2:])[:600])
     return 'exception', f'{type(e).__name__} at {where}: {str(e)[:160]}'
 
 
